@@ -16,7 +16,9 @@ Provisos made explicit (they are the property's, cf. `Props/C03.lean`):
 * `GoodRun` — every CAS function writes values drawn from `U` whose timestamps are ≥ 1 and not above
   the global clock of the step (`GoodFn`);
 * `cfg.lit = 0` — no tombstone reaches the retention (`LeftIngestersTimeout`) during the history;
-  keys are not deleted (`KV.Delete` is outside this model's events).
+  keys are not deleted (`KV.Delete` is outside this model's events);
+* convergence is stated for non-empty keys: a pair with an empty key is invalid on both receive paths,
+  so a value written locally under key "" is never replicated.
 `Inv U c` holds in every state reachable from `initC n clock` by ANY finite sequence of events of a
 `GoodRun` (`reachable_inv`), i.e. after any loss, duplication, reordering, delay, partition, restart.
 Liveness is claimed for the explicit sequence `syncEvents` (heal + two full-state sync passes), not
@@ -43,25 +45,26 @@ theorem store_monotone (hU : Univ U) (hT : TombClosed U) {cfg : Cfg} (hcfg : cfg
 /-- after node `b` merged the full state of node `a` its value is the join of both, for every key;
 no other node changes -/
 theorem pushpull_joins (hU : Univ U) {cfg : Cfg} (hcfg : cfg.lit = 0) {c : Cluster Desc} (hinv : Inv U c) (a b : Nat)
-    (hb : b < c.nodes.length) (key : String) :
+    (hb : b < c.nodes.length) (key : String) (hkey : key ≠ "") :
     Eqv (nval (stepC cfg c (.pushPull a b)) b key) (mergeState (nval c b key) (nval c a key)) ∧
     ∀ i, i ≠ b → (stepC cfg c (.pushPull a b)).nodes[i]? = c.nodes[i]? :=
-  ⟨(pushPull_spec hU hcfg hinv a b hb).2.1 key, (pushPull_spec hU hcfg hinv a b hb).1⟩
+  ⟨(pushPull_spec hU hcfg hinv a b hb).2.1 key hkey, (pushPull_spec hU hcfg hinv a b hb).1⟩
 
 /-- **convergence**: from ANY state satisfying the invariant the two sync passes make every node's
 value, for every key, equal to the join of all values held before -/
 theorem sync_converges (hU : Univ U) (hT : TombClosed U) {cfg : Cfg} (hcfg : cfg.lit = 0) {c : Cluster Desc}
-    (hinv : Inv U c) (h0 : 0 < c.nodes.length) (i : Nat) (hi : i < c.nodes.length) (key : String) :
+    (hinv : Inv U c) (h0 : 0 < c.nodes.length) (i : Nat) (hi : i < c.nodes.length) (key : String) (hkey : key ≠ "") :
     Eqv (nval (runC cfg c (syncEvents Desc (c.nodes.length - 1))) i key)
       (joinAll ((List.range c.nodes.length).map fun j => nval c j key)) :=
-  PfC06.sync_converges hU hT hcfg hinv h0 i hi key
+  PfC06.sync_converges hU hT hcfg hinv h0 i hi key hkey
 
 /-- ... hence all nodes expose the same content -/
 theorem sync_agree (hU : Univ U) (hT : TombClosed U) {cfg : Cfg} (hcfg : cfg.lit = 0) {c : Cluster Desc}
-    (hinv : Inv U c) (h0 : 0 < c.nodes.length) (i j : Nat) (hi : i < c.nodes.length) (hj : j < c.nodes.length) (key : String) :
+    (hinv : Inv U c) (h0 : 0 < c.nodes.length) (i j : Nat) (hi : i < c.nodes.length) (hj : j < c.nodes.length) (key : String)
+    (hkey : key ≠ "") :
     Eqv (nval (runC cfg c (syncEvents Desc (c.nodes.length - 1))) i key)
       (nval (runC cfg c (syncEvents Desc (c.nodes.length - 1))) j key) :=
-  (PfC06.sync_converges hU hT hcfg hinv h0 i hi key).trans (PfC06.sync_converges hU hT hcfg hinv h0 j hj key).symm
+  (PfC06.sync_converges hU hT hcfg hinv h0 i hi key hkey).trans (PfC06.sync_converges hU hT hcfg hinv h0 j hj key hkey).symm
 
 /-- an acknowledged CAS leaves its output contained in the node's store ... -/
 theorem cas_ack_stored (hU : Univ U) (hT : TombClosed U) {cfg : Cfg} (hcfg : cfg.lit = 0) {clock : Int} (hclock : clock ≥ 1)
@@ -73,9 +76,9 @@ theorem cas_ack_stored (hU : Univ U) (hT : TombClosed U) {cfg : Cfg} (hcfg : cfg
 /-- ... it stays there (`store_monotone`), and whatever any node holds before the sync is contained
 in every node's value after it: every acknowledged CAS becomes visible, merged, everywhere -/
 theorem acked_visible (hU : Univ U) (hT : TombClosed U) {cfg : Cfg} (hcfg : cfg.lit = 0) {c : Cluster Desc}
-    (hinv : Inv U c) (h0 : 0 < c.nodes.length) (i j : Nat) (hi : i < c.nodes.length) (hj : j < c.nodes.length) (key : String) :
-    Le (nval c j key) (nval (runC cfg c (syncEvents Desc (c.nodes.length - 1))) i key) :=
-  PfC06.acked_visible hU hT hcfg hinv h0 i j hi hj key
+    (hinv : Inv U c) (h0 : 0 < c.nodes.length) (i j : Nat) (hi : i < c.nodes.length) (hj : j < c.nodes.length) (key : String)
+    (hkey : key ≠ "") : Le (nval c j key) (nval (runC cfg c (syncEvents Desc (c.nodes.length - 1))) i key) :=
+  PfC06.acked_visible hU hT hcfg hinv h0 i j hi hj key hkey
 
 /-- the invalidation rule: same key, the old content is contained in the new one, not older -/
 theorem invalidates_spec (nk : String) (nc : List String) (nv : Nat) (ok : String) (oc : List String) (ov : Nat) :
@@ -101,10 +104,23 @@ theorem invalidate_sound_cas (hU : Univ U) (hT : TombClosed U) {cfg : Cfg} (hcfg
       ∀ x, Drawn U x → Eqv (mergeState (mergeState x b.change) b'.change) (mergeState x b'.change) :=
   invalidate_sound_local hU hT hcfg hclock nowMs hnd hf b hb hgone
 
-/-- a message that does not decode (malformed, truncated, unknown codec) changes nothing -/
+/-- a malformed message — one that does not decode (truncated, corrupted, unknown codec) or decodes to a
+pair with an empty key — changes nothing ... -/
 theorem corrupt_noop {V R : Type} [MergeVal V] (dec : R → Option (Msg V)) (cfg : Cfg) (now : Int) (nd : Node V) (raw : R)
-    (h : dec raw = none) : receive dec cfg now nd raw = nd :=
+    (h : Malformed dec raw) : receive dec cfg now nd raw = nd :=
   PfC06.corrupt_noop dec cfg now nd raw h
+
+/-- ... also as a pair inside a full-state (push/pull) message: malformed pairs are skipped and the
+remaining pairs are merged exactly as if the malformed ones were not there -/
+theorem corrupt_pairs_noop {V R : Type} [MergeVal V] (dec : R → Option (Msg V)) (cfg : Cfg) (now : Int) (nd : Node V)
+    (raws : List R) (bad : R → Bool) (hbad : ∀ r, bad r = true → Malformed dec r) :
+    receiveState dec cfg now nd raws = receiveState dec cfg now nd (raws.filter fun r => !bad r) :=
+  PfC06.corrupt_pairs_noop dec cfg now nd raws bad hbad
+
+/-- a full-state message made of malformed pairs only changes nothing -/
+theorem corrupt_state_noop {V R : Type} [MergeVal V] (dec : R → Option (Msg V)) (cfg : Cfg) (now : Int) (nd : Node V)
+    (raws : List R) (h : ∀ r ∈ raws, Malformed dec r) : receiveState dec cfg now nd raws = nd :=
+  PfC06.corrupt_state_noop dec cfg now nd raws h
 
 /-- only merges that changed the store enqueue a broadcast -/
 theorem no_gossip_without_change (hU : Univ U) {cfg : Cfg} (hcfg : cfg.lit = 0) {clock : Int} (now : Int) {nd : Node Desc}
@@ -120,8 +136,14 @@ node's current version of its key, and the value its function was last called wi
 value as readers see it; a watcher that was never called saw no change since registration.
 Named `_partial` because of the guard `cfg.lit = 0`: when a tombstone older than the retention is
 collected inside a merge that reports no change, the value changes without any notification
-(`watcher_missed_when_tombstone_collected` below; finding on the real code). `WatchPrefix` watchers
-additionally need a channel that never overflows (the code documents that notifications may be lost). -/
+(`watcher_missed_when_tombstone_collected` below; finding F2 on the real code).
+What the full statement needs beyond `lit = 0`: (a) `mergeValueForKey` must not change the stored value
+without a version bump and `notifyWatchers` — i.e. in the early return after `RemoveTombstones(limit)`
+(change emptied by the retention) the in-place merged-and-collected value has to be either discarded
+or published; then every step is `WStep.quiet` or `WStep.changed` also for `lit > 0` and `winv_step`
+applies unchanged; (b) for `WatchPrefix` watchers the buffered channel (`WatchPrefixBufferSize`) must
+never be full when a notification is sent (the code documents that such notifications are lost);
+the invariant `WOk` then holds per matched key instead of for the single watched key. -/
 theorem watchers_caught_up_partial (hU : Univ U) (hT : TombClosed U) {cfg : Cfg} (hcfg : cfg.lit = 0) (n : Nat) {clock : Int}
     (hclock : clock ≥ 1) (evs : List (Event Desc)) (hevs : GoodRun U cfg (initC n clock) evs)
     (nd : Node Desc) (hnd : nd ∈ (runC cfg (initC n clock) evs).nodes)
@@ -139,14 +161,15 @@ theorem watcher_run_current (nd : Node Desc) (w : Watcher Desc) (k : String) (re
 
 /-! ### Findings on the real code, as witnesses on the model (checked by evaluation) -/
 
-/-- F1: `NotifyMsg` drops a pair with an empty key, `MergeRemoteState` merges and re-gossips it -/
-theorem empty_key_dropped_by_notify {V : Type} [MergeVal V] (cfg : Cfg) (now : Int) (nd : Node V) (m : Msg V) (h : m.key = "") :
-    notifyMsg cfg now nd m = nd := by
-  unfold notifyMsg; rw [h]; rfl
-
-theorem empty_key_merged_by_pushpull :
-    let nd := mergeRemoteState (V := Desc) {} 10 {} [{ key := "", val := [{ id := "a", ts := 5 }] }]
-    nd.store.map (·.1) = [""] ∧ nd.gossipQ.map (·.key) = [""] := by decide
+/- F1 (history, fixed in /repo by 25b62af): `NotifyMsg` dropped a pair with an empty key but
+`MergeRemoteState` merged it, stored it under key "" and re-gossiped it. The model of that code had
+`mergeRemoteState = foldl deliver` and the witness
+`empty_key_merged_by_pushpull : (mergeRemoteState {} 10 {} [{key := "", val := [a@5]}]).store.map (·.1) = [""]`.
+Both paths now share `notifyMsg`; `corrupt_noop` / `corrupt_pairs_noop` cover the empty-key pair. -/
+theorem empty_key_dropped_everywhere :
+    (notifyMsg (V := Desc) {} 10 {} { key := "", val := [{ id := "a", ts := 5 }] }).store = [] ∧
+    (mergeRemoteState (V := Desc) {} 10 {} [{ key := "", val := [{ id := "a", ts := 5 }] }, { key := "r", val := [{ id := "a", ts := 5 }] }]).store.map (·.1) = ["r"] := by
+  decide
 
 /-- F2: retention 2 s, clock 100: node holds `a@1` (version 1) with a watcher that has seen it; the
 tombstone `a@5` arrives: the entry disappears from the stored value, but the version stays 1, the
